@@ -6,7 +6,7 @@ import json, re, shutil, sys
 from pathlib import Path
 pid, k, log = sys.argv[1], sys.argv[2], Path(sys.argv[3]).read_text()
 base = sys.argv[4] if len(sys.argv) > 4 else "/tmp/seed"
-tag = {"/tmp/seed": "seed", "/tmp/seed2": "r2seed", "/tmp/seed3": "r3seed", "/tmp/seed4": "r4seed"}.get(base.rstrip("/"), "xseed")
+tag = {"/tmp/seed": "seed", "/tmp/seed2": "r2seed", "/tmp/seed3": "r3seed", "/tmp/seed4": "r4seed", "/tmp/seed5": "r5seed"}.get(base.rstrip("/"), "xseed")
 extra = json.loads(sys.argv[5]) if len(sys.argv) > 5 else {}
 src = Path(f"{base}/{pid}/out/{k}")
 dst = Path(f"/verif/seeded/{pid}-{tag}{k}")
